@@ -1965,6 +1965,15 @@ def run(rep):
         from . import c17_more
         c17_more.check_json_bodies(rep, repo, sys.modules[__name__])
 
+    def g_chunk_kinds():
+        # a group of its own: the kinds are judged also where the provenance of the stream cannot be followed
+        import sys
+        from . import c17_total
+        rep.rule('R17.l', 'every JSON body (streaming, non-streaming, inside JSONP) is self.json_encoder applied to the endpoint result; '
+                          'a JSONP body is callback + "(" + JSON + ")" and is built only when the request names a callback; "+" / len() / '
+                          'indexing on the body chunks only where every operand is a materialised sequence of one kind on every path')
+        c17_total.check_chunk_kinds(rep, repo, sys.modules[__name__])
+
     def g_optional_labels():
         import sys
         from . import c17_more
@@ -1985,7 +1994,7 @@ def run(rep):
                                     % (fn.__name__, type(e).__name__, e, tb.filename.rpartition('/')[2], tb.lineno))
         group.__name__ = fn.__name__
         return group
-    for g in (g_names, g_guess, g_text_total, g_render, g_serialize, g_encoder, g_labels, g_templates, g_kinds, g_shared, g_total, g_negotiation, g_json_bodies, g_optional_labels):
+    for g in (g_names, g_guess, g_text_total, g_render, g_serialize, g_encoder, g_labels, g_templates, g_kinds, g_shared, g_total, g_negotiation, g_json_bodies, g_chunk_kinds, g_optional_labels):
         rep.guard(safely(g))
     # floors are checked after all groups ran, so that one unrecognised construct does not hide the others
     for rule_, n_ in (('R17.c', 9),):
